@@ -46,6 +46,7 @@ ConfigOk(r) ==
   /\ r.prior => (r.beta >= 1 /\ (r.defaultWeights \/ WeightsOk(r.w)) /\ (r.kappa => (Len(r.kap) = sys.nv /\ \A v \in 1..sys.nv : r.kap[v] >= 1)))
   \* filters: only ones that cannot leave [min, max] of their input (medians), see BoundPreservingFilter in notes/C08.md
   /\ r.filter \in {"none", "median001", "median011", "median111"} /\ r.filterInt >= 0
+  /\ Has(r, "uShift") /\ r.uShift \in -64..64 /\ (r.uShift # 0 => (r.exact /\ ~r.prior /\ ~r.writeUpdate))
   /\ r.priorType \in {"quadratic", "logcosh", "rdp"} /\ r.denFile \in {"none", "own", "wrong"}
   /\ (r.priorType # "quadratic" => (r.prior /\ r.defaultWeights /\ ~r.dep /\ ~r.exact))
   /\ (r.filterInt > 0 \/ r.post) => r.filter # "none"
@@ -71,6 +72,8 @@ RunOk(r) ==
        [] r.kind = "resume" -> /\ ~c.exact /\ ~r.ref /\ ref.cfg = c.id /\ r.last = ref.last
                                \* "resuming from a saved iterate": the image handed over is the one saved after sub-iteration `from'
                                /\ r.from \in DOMAIN ref.steps /\ r.initBits = ref.steps[r.from]
+       \* the efficiency-scaled copy of the previous exact instance (EFFICIENCY SCALE CLAUSE, OSSPS.tla): only compared with it
+       [] r.kind = "scaled" -> c.exact /\ ~r.ref /\ scale # << >> /\ scale.mode = "eff" /\ data # NoData /\ data.cfg = c.id
        [] r.kind = "refuse" -> ~c.exact /\ r.from = 0 /\ ~r.ref
        \* BEYOND THE PROPERTY: reconstruct without set_up on a used object ("This modifies *precomputed_denominator_ptr. So, you
        \* have to call set_up() before running a new reconstruction"): an error is required, not a reconstruction
@@ -126,7 +129,9 @@ SetUpAccepted(r, reading) ==
 SetUpOk(r, reading) ==
   /\ run # NoRun /\ ~run.setup
   \* BEYOND THE PROPERTY: the documented refusals of set_up (MustRefuse) - Succeeded::no, no reconstruction
-  /\ IF run.kind = "refuse" THEN ~r.ok ELSE SetUpAccepted(r, reading)
+  /\ IF run.kind = "refuse" THEN ~r.ok
+     ELSE IF run.kind = "scaled" THEN ~r.err /\ r.ok /\ r.usedN = c.N /\ r.nApprox = c.N /\ Has(r, "tgtBits") /\ r.tgtBits = run.initBits
+     ELSE SetUpAccepted(r, reading)
 
 (* ---- Step *)
 First(r) == r.k = run.start
@@ -137,7 +142,9 @@ FilterApplies(r) == (c.filterInt > 0 /\ r.k % c.filterInt = 0) \/ (c.post /\ r.k
 EstOk(r, reading) ==
   /\ Has(r, "est") /\ Len(r.est) = sys.nv
   /\ LET zs(v) == ColEmpty(v) IN
-     r.est = (IF FillApplies(r.k, run.start, reading) THEN FillNonIdentifiable(r.lam0, zs) ELSE r.lam0)
+     /\ r.est = (IF FillApplies(r.k, run.start, reading) THEN FillNonIdentifiable(r.lam0, zs) ELSE r.lam0)
+     \* ... bit for bit: voxels a bin sees (sensitivity > 0, however small) keep the value they start the sub-iteration with
+     /\ Has(r, "be") /\ r.be = (IF FillApplies(r.k, run.start, reading) THEN FillNonIdentifiable(r.b0, zs) ELSE r.b0)
 
 FloatSlack(x) == IF Abs(x) < 16777216 THEN 0 ELSE Abs(x) \div 8388608
 StepCommon(r, reading, waiveRef) ==
@@ -208,9 +215,21 @@ StepFreeOk(r, curvSrc) ==
        ELSE FreeVoxelOk(n, r.est[v] \div 2^CoarseBits, r.g[v] \div 2^CoarseBits, r.lam1[v] \div 2^CoarseBits, D,
                         r.kl - CoarseBits, r.kg - CoarseBits, den.kd, 1)
 
+(* one sub-iteration of the efficiency-scaled copy of an exact instance: structure as for every sub-iteration, numbers only  *)
+(* against the instance it is a copy of (its fixed-point records are out of range for |j| large and are not used)            *)
+StepScaled(r) ==
+  /\ c # NoCfg /\ run # NoRun /\ run.setup /\ r.k = run.next /\ r.k <= run.last
+  /\ Len(r.b0) = sys.nv /\ Len(r.b1) = sys.nv /\ Len(r.b2) = sys.nv /\ Has(r, "be") /\ Len(r.be) = sys.nv
+  /\ r.nGrad = 1 /\ r.sub = SubsetOf(c, r.k) /\ r.nsub = c.N /\ r.b0 = prev /\ r.b2 = r.b1
+  /\ LET zs(v) == ColEmpty(v) IN r.be = (IF FillApplies(r.k, run.start, "doc") THEN FillNonIdentifiable(r.b0, zs) ELSE r.b0)
+  /\ WithinBounds(c, r.b1)
+  /\ scale # << >> /\ scale.mode = "eff" /\ data # NoData /\ ScaledConfigEff(scale.cfg, c, scale.by)
+  /\ data.yq = scale.data.yq /\ data.a = scale.data.a /\ Has(data, "aShift") /\ data.aShift = scale.by /\ data.effShift = -scale.by
+  /\ r.k = scale.last.k /\ r.b0 = ScaledBits(scale.last.b0, scale.by) /\ r.be = ScaledBits(scale.last.be, scale.by)
+  /\ r.b1 = ScaledBits(scale.last.b1, scale.by)
 (* the scale clause on recorded bit patterns (see OSSPS.tla): same sub-iteration, scaled configuration, data and image *)
 ScaleOk(r) ==
-  /\ c.exact /\ data # NoData /\ ScaledConfig(scale.cfg, c, scale.by)
+  /\ scale.mode = "data" /\ c.exact /\ data # NoData /\ ScaledConfig(scale.cfg, c, scale.by)
   /\ ScaledSeq(scale.data.yq, data.yq, scale.by) /\ ScaledSeq(scale.data.a, data.a, scale.by)
   /\ r.k = scale.last.k /\ r.b0 = ScaledBits(scale.last.b0, scale.by)
   /\ r.b1 = ScaledBits(scale.last.b1, scale.by)
@@ -223,6 +242,7 @@ Explains(r, m) ==
                        /\ (~c.additive => \A b \in 1..NB(sys) : r.a[b] = 0)          \* no additive term
     [] r.e = "Run" -> RunOk(r)
     [] r.e = "SetUp" -> SetUpOk(r, "doc")
+    [] r.e = "Step" /\ run # NoRun /\ run.kind = "scaled" -> StepScaled(r)
     [] r.e = "Step" -> StepCommon(r, "doc", FALSE) /\ Law(r, m, CurvDoc) /\ (scale # << >> => ScaleOk(r))
     [] r.e = "RunEnd" /\ run # NoRun /\ run.kind = "nosetup" -> r.err /\ r.steps = 0
     [] r.e = "RunEnd" -> /\ run # NoRun /\ run.setup /\ ~r.err /\ r.ok
@@ -231,7 +251,8 @@ Explains(r, m) ==
                         \* the saved file holds the iterate, bit for bit
                         /\ r.k \in DOMAIN ref.steps /\ r.bits = ref.steps[r.k]
     \* scale clause: announces that the next exact instance is the previous one times 2^by
-    [] r.e = "ScaleOf" -> c # NoCfg /\ c.exact /\ r.cfg = c.id /\ r.by \in 1..3 /\ lastX # << >> /\ lastX.cfg = c.id /\ data # NoData
+    [] r.e = "ScaleOf" -> /\ c # NoCfg /\ c.exact /\ r.cfg = c.id /\ lastX # << >> /\ lastX.cfg = c.id /\ data # NoData
+                          /\ IF r.mode = "data" THEN r.by \in 1..3 ELSE r.mode = "eff" /\ r.by \in -40..40 /\ r.by # 0
     [] r.e = "End" -> r.lines >= l - 1
     [] OTHER -> FALSE          \* Abort, ConfigureError, unknown lines
 
@@ -275,7 +296,7 @@ Classify(r, m) == IF KnownNoSetUp(r) THEN "C08-reconstruct-without-setup"
 Init == /\ taint = "none" /\ lastX = << >> /\ scale = << >> /\ l = 1 /\ sys = NoSys /\ c = NoCfg /\ p = << >> /\ data = NoData /\ ref = NoRef /\ run = NoRun
         /\ den = << >> /\ prev = << >> /\ xm = << >> /\ bad = << >>
 
-ShapedStep(r) == r.e = "Step" /\ c # NoCfg /\ c.exact /\ data # NoData /\ Has(r, "est") /\ Len(r.est) = sys.nv /\ Has(r, "kl")
+ShapedStep(r) == r.e = "Step" /\ run # NoRun /\ run.kind # "scaled" /\ c # NoCfg /\ c.exact /\ data # NoData /\ Has(r, "est") /\ Len(r.est) = sys.nv /\ Has(r, "kl")
 
 Next ==
   /\ l <= Len(TraceLog)
@@ -306,9 +327,9 @@ Next ==
                  ELSE IF r.e = "Step" /\ ~Explains(r, xm') /\ KnownRefill(r, xm') THEN "refill"
                  ELSE IF r.e = "SetUp" /\ KnownPosResume(r) THEN "pos"
                  ELSE taint
-     /\ lastX' = IF r.e = "Step" /\ c # NoCfg /\ c.exact /\ Has(r, "b1") /\ Has(r, "b0") /\ Has(r, "k") THEN [cfg |-> c.id, k |-> r.k, b0 |-> r.b0, b1 |-> r.b1]
+     /\ lastX' = IF r.e = "Step" /\ c # NoCfg /\ c.exact /\ Has(r, "b1") /\ Has(r, "b0") /\ Has(r, "be") /\ Has(r, "k") THEN [cfg |-> c.id, k |-> r.k, b0 |-> r.b0, be |-> r.be, b1 |-> r.b1]
                  ELSE IF r.e = "System" THEN << >> ELSE lastX
-     /\ scale' = IF r.e = "ScaleOf" /\ Explains(r, xm') THEN [by |-> r.by, cfg |-> c, data |-> data, last |-> lastX]
+     /\ scale' = IF r.e = "ScaleOf" /\ Explains(r, xm') THEN [by |-> r.by, mode |-> r.mode, cfg |-> c, data |-> data, last |-> lastX]
                  ELSE IF r.e \in {"RunEnd", "System", "End"} THEN << >> ELSE scale
      /\ bad' = IF Explains(r, xm') THEN bad ELSE IF Len(bad) < 300 THEN Append(bad, << l, Classify(r, xm') >>) ELSE bad
   /\ l' = l + 1
